@@ -408,6 +408,8 @@ def argv_for(opts, starts, dbpath, extra=()):
         argv += ['--exclude-directories', ','.join(opts['exclude_directories'])]
     if opts.get('accept'):
         argv += ['--accept', ','.join(opts['accept'])]
+    if opts.get('reject'):
+        argv += ['--reject', ','.join(opts['reject'])]
     if opts.get('https_only'):
         argv.append('--https-only')
     if opts.get('strong_redirects') is False:
@@ -665,8 +667,15 @@ def gen_c02(tape, tier):
         opts['no_parent'] = True
     elif k == 3:
         opts['exclude_directories'] = ['/d1/d2']
-    if tape.chance(1, 8, 'opt.accept'):
+    ka = tape.draw(10, 'opt.accept')
+    if ka == 1:
         opts['accept'] = ['html', 'css', 'png']
+    elif ka == 2:
+        opts['reject'] = ['png']                 # -R with one suffix
+    elif ka == 3:
+        opts['reject'] = ['css', 'png']          # -R with a comma separated list
+    elif ka == 4:
+        opts['reject'] = ['p*.html', 'png']      # patterns
     opts['strong_redirects'] = not tape.chance(1, 4, 'opt.nostrong')
     opts['tries'] = tape.choice((20, 1, 2, 3), 'opt.tries')
     nhosts = tape.choice((2, 3, 1), 'site.nhosts')
@@ -688,6 +697,20 @@ def gen_c02(tape, tier):
         if cand:
             f = cand[tape.draw(len(cand), 'site.flaky.which')]
             flaky.append((f, tape.choice((1, 2, 5, 30), 'site.flaky.n')))
+    # --https-only: the crawl starts on an https origin of the same host; every http link it meets is out of scope
+    if tape.chance(1, 10, 'opt.https_only'):
+        sec = site.add_origin('https', 'site.test', 443, ip=main.ip)
+        root_dir = '/d1/' if opts['no_parent'] else '/'
+        hp = site.add(sec, root_dir + 'secure.html', 'page')
+        hp2 = site.add(sec, root_dir + 'secure2.html', 'page')
+        hp.links.append((hp2, refsite.spell(tape, hp, hp2)))
+        for pg in pages[:tape.between(1, 4, 'opt.https_only.links')]:
+            hp.links.append((pg, pg.url))                  # http links offered by the https page
+            hp2.links.append((pg, pg.url))
+        for a in assets[:2]:
+            hp.inlines.append((a, a.url, 'css' if a.kind == 'css' else 'img'))      # http requisites as well
+        starts = [hp]
+        opts['https_only'] = True
     # robots.txt of an origin (the own one or the target of a redirect) failing for a while
     site.flaky_robots = []
     if opts['robots'] and tape.chance(1, 2, 'site.flaky_robots'):
@@ -813,6 +836,8 @@ def offered_probes(r, site, starts, opts):
                 r.probes['offered_regex_rejected'] += 1
             if opts.get('exclude_directories') and any(d.path.startswith(x + '/') for x in opts['exclude_directories']):
                 r.probes['offered_excluded_dir'] += 1
+            if opts.get('reject') and any(d.path.endswith(x) for x in opts['reject'] if '*' not in x):
+                r.probes['offered_rejected_suffix'] += 1
         if res.kind == 'redirect' and res.redirect_to.origin.host != res.origin.host:
             r.probes['cross_host_redirect'] += 1
     for k in ('span_hosts_allow', 'domains', 'hostnames', 'https_only'):
